@@ -486,3 +486,14 @@ package template
 //@ func (Var).Nillable props=C03
 //@   ensures#nilok canBeNil(v.typ) ==> result
 //@   assigns nothing
+
+// ---- the import list handed to templates: every registered import, once per path, sorted by path -------
+// (C01: the import block is complete; sortedness is also what makes it independent of map iteration order.)
+//@ func (Registry).Imports props=C01,C15
+//@   sortkey pathOf($elem)
+//@   ensures#sorted forall a, b int :: 0 <= a && a < b && b < len(result) ==> !(pathOf(result[b]) < pathOf(result[a]))
+//@   ensures#only forall k int :: 0 <= k && k < len(result) ==> (exists p string :: (p in r.imports) && result[k] == r.imports[p])
+//@   ensures#all forall p string :: (p in r.imports) ==> (exists k int :: 0 <= k && k < len(result) && result[k] == r.imports[p])
+//@   loop 0: invariant#only forall k int :: 0 <= k && k < len(imports) ==> (exists p string :: (p in r.imports) && imports[k] == r.imports[p])
+//@   loop 0: invariant#all forall p string :: (p in r.imports) && $visited[p] ==> (exists k int :: 0 <= k && k < len(imports) && imports[k] == r.imports[p])
+//@   assigns fresh
